@@ -86,6 +86,7 @@ macro_rules! arr_forms {
 }
 
 pub fn cmp_pair<const N: usize, const M: usize>(ctx: &mut Ctx) {
+    ctx.panic_props = vec!["C13", "C11"];
     let alpha = if ctx.args.thorough { 3 } else { 2 };
     let starts_a = if N == 0 { 1 } else { N };
     let starts_b = if M == 0 { 1 } else { M };
